@@ -371,6 +371,9 @@ func (vc *VC) applyCall(ci *callInfo) []string {
 	if fc == nil && ci.fn != nil && ci.fn.Origin() != nil {
 		fc = vc.C.Funcs[CanonName(ci.fn.Origin())]
 	}
+	if fc != nil && (fc.External || fc.Trusted) {
+		vc.usedContracts[ci.name] = true
+	}
 	pre := vc.st
 	argMap := map[string]sval{}
 	for i, a := range ci.args {
